@@ -137,23 +137,40 @@ def run_family(prop, b, fam, profile, seed, tier):
     rc, out = sh([bin_path(b, profile), "gen", fam, str(seed), tier, out_file], timeout=7200)
     if rc != 0:
         fail_infra(f"harness {b} gen {fam} ({profile}) exited {rc}", out)
+    # the driver is single-threaded: split the case file and run several drivers in parallel
     with open(out_file) as f:
-        p = subprocess.run([DRV], stdin=f, stdout=subprocess.PIPE, stderr=subprocess.STDOUT, text=True)
-    if p.returncode != 0:
-        fail_infra(f"driver exited {p.returncode}", p.stdout)
+        lines = f.readlines()
+    nchunks = max(1, min(12, len(lines) // 4000))
+    procs = []
+    for k in range(nchunks):
+        chunk = "".join(lines[k::nchunks])          # striding spreads the expensive (long-vector) cases evenly
+        pr = subprocess.Popen([DRV], stdin=subprocess.PIPE, stdout=subprocess.PIPE, stderr=subprocess.STDOUT, text=True)
+        procs.append((pr, chunk))
+    import threading
+    outs = [None] * nchunks
+    def feed(i):
+        pr, chunk = procs[i]
+        outs[i] = pr.communicate(chunk)[0]
+    th = [threading.Thread(target=feed, args=(i,)) for i in range(nchunks)]
+    for t in th: t.start()
+    for t in th: t.join()
     diffs, bads, done = [], [], None
-    for l in p.stdout.splitlines():
-        m = DIFF_RE.match(l)
-        if m:
-            diffs.append({"n": int(m.group(1)), "kind": m.group(2), "line": m.group(3), "model": m.group(4),
-                          "spec": m.group(5), "profile": profile, "bin": b})
-        elif l.startswith("BAD"):
-            bads.append(l)
-        elif l.startswith("DONE"):
-            done = dict(kv.split("=") for kv in l.split()[1:])
+    for i, (pr, _) in enumerate(procs):
+        if pr.returncode != 0:
+            fail_infra(f"driver exited {pr.returncode}", outs[i] or "")
+        for l in (outs[i] or "").splitlines():
+            m = DIFF_RE.match(l)
+            if m:
+                diffs.append({"n": int(m.group(1)), "kind": m.group(2), "line": m.group(3), "model": m.group(4),
+                              "spec": m.group(5), "profile": profile, "bin": b})
+            elif l.startswith("BAD"):
+                bads.append(l)
+            elif l.startswith("DONE"):
+                d1 = {k: int(v) for k, v in (kv.split("=") for kv in l.split()[1:])}
+                done = d1 if done is None else {k: done[k] + d1[k] for k in d1}
     if done is None:
-        fail_infra("driver produced no DONE line", p.stdout)
-    return out_file, diffs, bads, {k: int(v) for k, v in done.items()}
+        fail_infra("driver produced no DONE line", "\n".join(o or "" for o in outs))
+    return out_file, diffs, bads, done
 
 
 def source_changed():
